@@ -35,6 +35,14 @@ fn fixed_regressions(out: &mut Out) {
 	out.op("oracle-rt", &[mixed.clone()]);
 	out.op("oracle-placement", &[mixed.clone()]);
 	out.op("enigma-write-all", &[mixed]);
+	// a gap in the chain: Outer is present, Outer$Mid is not; Outer$Mid$Leaf is an orphan and must not be nested below Outer
+	let gap = ms(vec![cls("a/b/Outer", Some("x/y/OuterNamed")), cls("a/b/Outer$Mid$Leaf", Some("x/y/OuterNamed$Mid$LeafNamed")), cls("a/b/Outer$In", Some("x/y/OuterNamed$InNamed")),
+		cls("P", Some("Q")), cls("P$A$B$C", Some("Q$A$B$C")), cls("P$A$B$C$D", None)]);
+	out.op("oracle-rt", &[gap.clone()]);
+	out.op("oracle-placement", &[gap.clone()]);
+	out.op("oracle-dir-rt", &[gap.clone()]);
+	out.op("enigma-write-all", &[gap.clone()]);
+	out.op("enigma-rt", &[gap]);
 	// depth-first nesting: a top-level class with two nested classes, the first of which has a nested class of its own
 	// (a breadth-first writer would put C$A$X below C$B)
 	let deep = ms(vec![cls("C$B", Some("D$F")), cls("C$A$X", Some("D$E$Y")), cls("C", Some("D")), cls("C$A", Some("D$E")), cls("C$A$X$Z", None), cls("C$B$W", None)]);
@@ -119,6 +127,12 @@ fn family_keys(r: &mut Rng, cfg: &MapCfg) -> Vec<String> {
 		}
 	}
 	if r.chance(1, 3) { keys.push(format!("Zz${}${}", fvh::mapgen::ident(r, cfg), fvh::mapgen::ident(r, cfg))); }
+	// a gap in a chain (seed C12-I was missed): an enclosing class further out is present while the direct parent is not - the
+	// class below the gap is an orphan (a file of its own, full name kept), however many of its ancestors are in the set
+	if r.chance(1, 4) {
+		let mids: Vec<String> = keys.iter().filter(|k| k.contains('$') && keys.iter().any(|x| x.starts_with(&format!("{k}$")))).cloned().collect();
+		if !mids.is_empty() { let gone = r.pick(&mids).clone(); keys.retain(|k| *k != gone); }
+	}
 	r.shuffle(&mut keys);
 	keys
 }
